@@ -16,13 +16,14 @@ SOAK = {"thorough": ['tests/materiallaws', 'tests/strength']}      # contract so
 REQUIRED_CLASSES = {t: ["k_2=inf", "k_2=k_1", "k_2_finite", "TN_only", "TS_only", "TN_and_TS", "no_scatter",
                         "native_probability!=0.5", "load==SD_exactly", "load_below_SD", "load_above_SD",
                         "broadcast:curves_x_loads_disjoint", "broadcast:shared_level", "cycles==ND_exactly",
-                        "broadcast:per_row_native_probability", "target==one_row_native", "probability:array_containing_native"]
+                        "broadcast:per_row_native_probability", "target==one_row_native", "probability:array_containing_native", "arguments:integer_typed",
+                        "curve:integer_typed_columns", "curve:integer_k_1_column"]
                     for t in ("quick", "thorough")}
 REQUIRED_MONITORS = ["cycles==basquin_model", "load==basquin_model", "load(cycles(S))==S", "cycles(load(N))==N",
                      "non_increasing", "continuous_at_knee", "slope_k1_above", "slope_k2_below", "infinite_below_SD",
                      "miner:only_k2_changes", "miner:original_unaltered", "cycles_grow_with_probability", "N90/N10==TN",
                      "SD90/SD10==TS", "transform_composes", "transform_native_is_identity", "std<->T_inverse",
-                     "T==10^(2 z90 s)", "broadcast==elementwise_scalar", "probability_array==scalar_loop", "fixed_probes==basquin_model"]
+                     "T==10^(2 z90 s)", "broadcast==elementwise_scalar", "probability_array==scalar_loop", "fixed_probes==basquin_model", "integer_arguments==float_arguments", "integer_columns==float_columns"]
 RULE = ("seeded curves: k_1 in (1,15], k_2 in {inf, k_1, 2k_1-1, U(k_1,3k_1)}, SD 10..1000, ND 1e4..1e7, TN/TS each given or "
         "omitted (>= 1), native failure probability 0.5 or U(0.01,0.99), target probabilities in (0,1); loads on a log grid "
         "around SD incl. SD exactly and SD(1 +- 1e-9); scalar, array and indexed (broadcast) evaluation. The real accessor "
@@ -147,6 +148,29 @@ def run_case(case, ctx):
     got_p = [float(np.asarray(wc.cycles(300.0, q_))) for q_ in (0.5, 0.1)] + [float(np.asarray(wc.load(1e5, q_))) for q_ in (0.5, 0.1)]
     exp_p = [ref_cycles(c, 300.0, q_) for q_ in (0.5, 0.1)] + [ref_load(c, 1e5, q_) for q_ in (0.5, 0.1)]
     ctx.check("fixed_probes==basquin_model", _close(got_p, exp_p, 1e-9), observed=got_p, expected=exp_p)
+    # the same numbers in other numeric types: integer cycle numbers and loads (python int, numpy ints, 0-d array) and a
+    # curve whose parameters are stored as integers where they are whole numbers
+    ctx.tag("arguments:integer_typed")
+    ok, bad = True, None
+    for conv in (int, np.int64, np.int32, lambda v: np.array(int(v))):
+        for q_ in (0.5, 0.1):
+            g = [float(np.asarray(wc.cycles(conv(300), q_))), float(np.asarray(wc.load(conv(100000), q_)))]
+            e = [ref_cycles(c, 300.0, q_), ref_load(c, 1e5, q_)]
+            if not _close(g, e, 1e-9):
+                ok, bad = False, {"type": getattr(conv, "__name__", "0-d array"), "p": q_, "got": g, "expected": e}
+    ctx.check("integer_arguments==float_arguments", ok, observed=bad)
+    ci = {k: (int(round(v)) if k in ("SD", "ND") else v) for k, v in c.items()}
+    cf = {k: float(v) for k, v in ci.items()}
+    frame_i = pd.DataFrame({k: [v, v] for k, v in ci.items()})         # SD and ND columns of integer dtype
+    if float(cf["k_1"]).is_integer():
+        frame_i["k_1"] = frame_i["k_1"].astype(int)                     # and k_1 where it is a whole number
+        ctx.tag("curve:integer_k_1_column")
+    ctx.tag("curve:integer_typed_columns")
+    Lq0, Nq0 = cf["SD"] * 0.8, cf["ND"] * 7.0
+    gi = [np.asarray(frame_i.woehler.cycles(Lq0, 0.5), dtype=float), np.asarray(frame_i.woehler.load(Nq0, 0.5), dtype=float)]
+    ei = [np.full(2, ref_cycles(cf, Lq0, 0.5)), np.full(2, ref_load(cf, Nq0, 0.5))]
+    ctx.check("integer_columns==float_columns", _close(gi[0], ei[0], 1e-9) and _close(gi[1], ei[1], 1e-9), observed=gi, expected=ei,
+              detail={"dtypes": {k: str(v) for k, v in frame_i.dtypes.items()}})
 
     for p in probs:
         SDp, NDp, _, _ = _shifted(c, p)
